@@ -252,7 +252,7 @@ Definition final_num_alleles (na0 : Z) (anc : option Z) : Z :=
 
 (* correspondence term: both cores must reproduce the implementation's observation, and
    the side conditions of the L2 = L0 theorem must hold on this input *)
-Definition check_case (ta : tree_arrays) (genotypes : list Z) (anc : anc_arg) (nal : Z) (o : mm_obs) : bool :=
-  mm_obs_eqb (py_map_mutations c_map_mutations ta genotypes anc nal) o &&
-  mm_obs_eqb (py_map_mutations c_map_mutations_rose ta genotypes anc nal) o &&
+Definition check_case (ta : tree_arrays) (genotypes : list Z) (anc : anc_arg) (alleles : list Z) (o : mm_obs) : bool :=
+  mm_obs_eqb (py_map_mutations (guarded c_map_mutations) ta genotypes anc alleles) o &&
+  mm_obs_eqb (py_map_mutations (guarded c_map_mutations_rose) ta genotypes anc alleles) o &&
   l2_side_conditions c20_missing_through_hartigan ta genotypes.
